@@ -194,9 +194,12 @@ def flatten(row, prefix=()):
     return out
 
 
-def nest(flat):
+def nest(flat, rng=None):
     out = {}
-    for path, v in flat.items():
+    items = list(flat.items())
+    if rng is not None:
+        rng.shuffle(items)          # the same row, its keys inserted in another order
+    for path, v in items:
         d = out
         for k in path[:-1]:
             d = d.setdefault(k, {})
@@ -236,7 +239,9 @@ def _table_case(case, rng):
             w[rng.randrange(len(w))] = 0
         tot = sum(w)
         probs = [x / tot for x in w]
-        rows = [nest(r) for r in rows_flat]
+        # product operands may write the same row with its keys in any order; mixture operands may not (mix()
+        # asserts one key order per table: its own stated precondition)
+        rows = [nest(r, rng if (mode != "same" and rng.random() < 0.5) else None) for r in rows_flat]
         how = rng.choice(["probs", "logits"])
         if how == "probs":
             t = Pr(rows, probs=probs)
